@@ -82,6 +82,18 @@ func genC16One(t *rapid.T) c16Case {
 				hi = lo
 			}
 			c.FailAt = rapid.Uint64Range(lo, hi).Draw(t, "failat")
+			// half of the time transient faults hit the first jobs as well: the job that fails deterministically
+			// may be a retry, the error must still be the deterministic one
+			if rapid.Bool().Draw(t, "mixed") {
+				n := rapid.IntRange(1, 2).Draw(t, "nmixed")
+				for i := 0; i < n; i++ {
+					c.Faults = append(c.Faults, world.Fault{
+						Call:  rapid.IntRange(0, 3).Draw(t, "mixedcall"),
+						Kind:  rapid.SampledFrom([]string{"before", "overloaded", "drop-mid"}).Draw(t, "mixedkind"),
+						After: rapid.IntRange(0, 2).Draw(t, "mixedafter"),
+					})
+				}
+			}
 			return c
 		}
 	}
@@ -133,7 +145,7 @@ func checkC16One(c c16Case) (*ev.Failure, c16Stats) {
 		return nil, st
 	}
 	if c.FailMod != "" {
-		S, _ := runC16(c, nil, c.FailMod, c.FailAt)
+		S, _ := runC16(c, c.Faults, c.FailMod, c.FailAt)
 		st.jobs = len(S.res.Jobs)
 		if S.res.Hung {
 			return ev.Failf("deterministic/hang", "module %s fails at block %d: the request did not end (a deterministic failure must not be retried for ever): %v", c.FailMod, c.FailAt, firstLine(S.res.Err)), st
@@ -212,7 +224,7 @@ func firstLine(err error) string {
 
 func TestC16(t *testing.T) {
 	r := ev.Get("C16", "Faults")
-	r.Rule = "rapid, batches of 12 cases run concurrently (every retry sleeps >= 1 s in the real back-off): generated program + request with 2..4 back-filled segments on the real work.RemoteWorker over a fake gRPC client/stream pair in front of the exported Tier2Service.ProcessRange; transient plan = 1..3 faults (n-th call; error before the call, 'service currently overloaded', stream dropped after j messages with the server context cancelled, stream dropped after the job wrote its files): the request must complete and satisfy the C01 oracle; deterministic plan = a module of the graph panics at block k: the request must end with an error mapped to invalid_argument, deliver only blocks < k equal to the sequential execution's, nothing after the error, and not retry for ever; non-trivial = a fault that hits after the job produced output, or k inside the back-filled part"
+	r.Rule = "rapid, batches of 12 cases run concurrently (every retry sleeps >= 1 s in the real back-off): generated program + request with 2..4 back-filled segments on the real work.RemoteWorker over a fake gRPC client/stream pair in front of the exported Tier2Service.ProcessRange; transient plan = 1..3 faults (n-th call; error before the call, 'service currently overloaded', stream dropped after j messages with the server context cancelled, stream dropped after the job wrote its files): the request must complete and satisfy the C01 oracle; deterministic plan = a module of the graph panics at block k (half of the time with 1..2 transient faults on the first calls too): the request must end with an error mapped to invalid_argument, deliver only blocks < k equal to the sequential execution's, nothing after the error, and not retry for ever; non-trivial = a fault that hits after the job produced output, or k inside the back-filled part"
 	rapid.Check(t, func(rt *rapid.T) {
 		var batch c16Batch
 		n := 12
@@ -242,6 +254,9 @@ func TestC16(t *testing.T) {
 			cl := []string{fmt.Sprintf("prod=%v", c.Run.Prod)}
 			if c.FailMod != "" {
 				cl = append(cl, "deterministic")
+				if len(c.Faults) > 0 {
+					cl = append(cl, "deterministic-after-transient-faults")
+				}
 			} else {
 				for _, f := range c.Faults {
 					cl = append(cl, "fault="+f.Kind)
